@@ -71,7 +71,7 @@ def _run_chunk(args):
         try:
             signal.alarm(per_run_timeout)
             case = spec.make_case(seed, tier)
-            res = run_case(case, monitors=spec.monitors(case))
+            res = spec.execute(case)
             signal.alarm(0)
             s = summarize(spec, case, res, tier)
             if not res.ok:
@@ -292,7 +292,7 @@ def replay_file(path, spec=None):
     from . import checks
     spec = spec or checks.get(doc['property'])
     case = doc['case']
-    res = run_case(case, monitors=spec.monitors(case))
+    res = spec.execute(case)
     classes = [v[0] for v in res.violations]
     return (doc['class'] in classes), res, doc
 
